@@ -673,6 +673,12 @@ def strat_nontext(draw, tier):
         # a text where a list is required (one character per expected box, so that only the type is wrong)
         obj = {'obj': 'str', 'v': draw(st.sampled_from(['x' * len(texts), 'x' * len(texts), texts[0], ', '.join(texts), '']))}
         label = 'text-where-list-required'
+    elif kind == 'Sum' and len(texts) >= 2 and draw(st.booleans()):
+        # a single text where several boxes are required: as many CHARACTERS as there are boxes, each a plausible entry
+        # ('15nn' for lower/upper/summand/variable), so that only the type is wrong
+        obj = {'obj': 'str', 'v': draw(st.sampled_from(['15nn'[:len(texts)].ljust(len(texts), 'n'), '1' * len(texts),
+                                                        'n' * len(texts), ''.join((t or 'n')[0] for t in texts)]))}
+        label = 'text-where-list-required'
     elif kind == 'Sum':
         obj = {'obj': 'set', 'v': texts[:1]}
         label = 'set'
